@@ -687,7 +687,9 @@ def evaluate_payload_template(input, context, template):
 
         if v_is_path_or_intrinsic:
             if v == "$":  # It's a path representing the root node
-                v = clone(input)  # clone to avoid potential circular reference
+                # Copy to avoid a potential circular reference. This must be a
+                # plain copy: the input is data, not a template to be evaluated.
+                v = copy.deepcopy(input)
             elif v.startswith("$"):  # It's a path
                 v = apply_path(input, context, v)
             else:  # It's an Intrinsic Function
